@@ -88,7 +88,7 @@ impl StdfsEntry {
     /// * Filesystem properties are cached during load
     pub(crate) fn from<T: AsRef<Path>>(path: T) -> RvResult<Self> {
         let path = Stdfs::abs(path)?;
-        if !Stdfs::exists(&path) {
+        if fs::symlink_metadata(&path).is_err() {
             return Err(PathError::does_not_exist(&path).into());
         }
         let mut link = false;
@@ -107,8 +107,10 @@ impl StdfsEntry {
             // Get the target path relative to the link path if possible
             rel = alt.relative(path.dir()?)?;
 
-            // Switch to the link's source metadata
-            meta = fs::metadata(&path)?;
+            // Switch to the link's source metadata when the target exists
+            if let Ok(x) = fs::metadata(&path) {
+                meta = x;
+            }
         }
 
         Ok(StdfsEntry {
